@@ -13,7 +13,8 @@ From Coq Require Import List Arith Bool.
 Import ListNotations.
 
 Inductive framing := FLen | FEof | FChunked.
-Inductive stray := SNone | SSame | SSepResp | SSepJunk.
+Inductive stray := SNone | SSame | SSepResp | SSepJunk
+| SLate.    (* no stray at all: the rest of the body itself is late - it arrives only when the next request does *)
 
 Record reply := mkReply {
   k_kind : nat;            (* 0 a response, 1 junk instead of a status line, 2 EOF instead of a reply *)
@@ -31,7 +32,8 @@ Inductive item :=
 | IResp (tag : nat) (r : reply)     (* status line + headers + the first body bytes *)
 | IData (tag : nat) (cnt : nat)     (* further bytes *)
 | IJunk (tag : nat)
-| IEof.
+| IEof
+| IHold.                            (* what follows has not arrived yet: it does when the next request is written to this socket *)
 
 Definition stray_tag (i : nat) : nat := 100 + i.
 
@@ -46,10 +48,15 @@ Definition norm (head : bool) (r : reply) : reply :=
   else match k_framing r with
        | FEof => mkReply 0 (k_status r) FEof (k_n r) (Nat.min (k_first r) (k_n r)) (k_n r) false SNone (k_eof_after r)
        | f => mkReply 0 (k_status r) f (k_n r) (Nat.min (k_first r) (Nat.min (k_sent r) (k_n r))) (Nat.min (k_sent r) (k_n r)) (k_keep r)
-                      (if Nat.ltb (k_sent r) (k_n r) then SNone else k_stray r) (k_eof_after r)
+                      (if Nat.ltb (k_sent r) (k_n r) then (match k_stray r with SLate => SLate | _ => SNone end) else k_stray r)
+                      (k_eof_after r)
        end.
 
 Definition stray_reply : reply := mkReply 0 200 FLen 3 3 3 true SNone false.
+(* the late rest of a body reads like a response of its own (followed by a few more bytes) to a client that lost track of the framing *)
+Definition late_reply : reply := mkReply 0 200 FLen 3 3 3 true SNone false.
+Definition is_late (r : reply) (bl complete : bool) : bool :=
+  negb bl && negb complete && match k_stray r, k_framing r with SLate, FLen => true | _, _ => false end.
 
 (* the items the server writes when it receives request i *)
 Definition serve (i : nat) (head : bool) (r0 : reply) : list item :=
@@ -67,7 +74,8 @@ Definition serve (i : nat) (head : bool) (r0 : reply) : list item :=
                            | SSepJunk => [IJunk (stray_tag i)]
                            | _ => []               (* same-segment strays sit in the reader's buffer and die with it *)
                            end else [])
-      ++ (if negb (k_keep r) || negb complete || k_eof_after r || (match k_framing r with FEof => true | _ => false end)
+      ++ (if is_late r bl complete then [IHold; IResp i late_reply; IJunk i]      (* k_sent counts what is sent at once *)
+          else if negb (k_keep r) || negb complete || k_eof_after r || (match k_framing r with FEof => true | _ => false end)
           then [IEof] else [])
   end.
 
@@ -97,10 +105,14 @@ Definition checkout (st : state) : state * option (nat * bool) :=
   | None :: q => (set_q st q, None)
   | Some (s, d) :: q =>
       match evs_of (s_evs st) s with
-      | [] => (set_q st q, Some (s, d))
+      | [] | IHold :: _ => (set_q st q, Some (s, d))          (* nothing has arrived: the socket is not readable *)
       | _ => (close_sock (set_q st q) s, None)
       end
   end.
+
+(* the next request reaches the server: what it held back is on its way now *)
+Fixpoint unhold (l : list item) : list item :=
+  match l with [] => [] | IHold :: r => r | x :: r => x :: unhold r end.
 
 Definition open_sock (st : state) : state * nat :=
   (mkSt (s_q st) ((s_nsid st, []) :: s_evs st) (S (s_nsid st)) (s_script st), s_nsid st).
@@ -117,6 +129,7 @@ Fixpoint pull (need have : nat) (items : list item) : list (nat * nat) * nat * l
   match items with
   | [] => ([], have, [], true)
   | IEof :: _ => ([], have, items, true)
+  | IHold :: _ => ([], have, items, true)          (* the read times out *)
   | IData t c :: more =>
       let '(ch, h, it, e) := pull need (have + c) more in ((t, Nat.min c (need - have)) :: ch, h, it, e)
   | IResp t _ :: more =>        (* a reader that meets a foreign message consumes its bytes as body *)
@@ -130,6 +143,7 @@ Fixpoint pull_eof (items : list item) : list (nat * nat) * list item :=
   match items with
   | [] => ([], [])
   | IEof :: _ => ([], items)
+  | IHold :: _ => ([], items)
   | IData t c :: more => let '(ch, it) := pull_eof more in ((t, c) :: ch, it)
   | IResp t _ :: more => let '(ch, it) := pull_eof more in ((t, 1) :: ch, it)
   | IJunk t :: more => let '(ch, it) := pull_eof more in ((t, 1) :: ch, it)
@@ -261,7 +275,7 @@ Definition acquire (st : state) : state * nat * bool :=
 Definition attempt (M : nat) (st2 : state) (s : nat) (dirty : bool) (i : nat) (rq : request) (r0 : reply) (more : list reply)
   : state * option result :=
   (* the request is written; the server answers it on this socket *)
-  let st3 := mkSt (s_q st2) ((s, evs_of (s_evs st2) s ++ serve i (q_head rq) r0) :: s_evs st2) (s_nsid st2) more in
+  let st3 := mkSt (s_q st2) ((s, unhold (evs_of (s_evs st2) s) ++ serve i (q_head rq) r0) :: s_evs st2) (s_nsid st2) more in
   let failed := (put M (close_sock st3 s) None, None) in
   if dirty then failed
   else
